@@ -162,7 +162,8 @@ class StoreJudge:
         if head.startswith("err") and trig:
             self.v("C07", f"rejected call {op} fired tokens {trig}")
         if self.family == "fleet": self.fleet_line(op, parse_ready(line))
-        if self.family in ("slot", "cbelt"): self.slot_line(op, parse_ready(line), head)
+        if self.family == "slot": self.slot_line(op, parse_ready(line), head)
+        if self.family == "cbelt": self.cbelt_line(op, parse_ready(line), head, trig)
         self.after_line(op)
 
     # ---- slotted conveyor (C12, C13)
@@ -199,6 +200,48 @@ class StoreJudge:
         nready = sum(1 for e in self.inside if e["ready_at"] < INF)
         self._stalled = nready > len(self.granted("get"))
         if self._stalled: self._ever_stalled = True
+
+    # ---- continuous conveyor (C12, C13)
+    def cbelt_line(self, op, ready_ids, head, trig):
+        """Observable rules.  `stalled` is the library's own notion, computed from the trace: an item is at the exit and
+        no retrieval is granted.  `_stall_since` = instant since which that holds without interruption, `_stall_cause` = how
+        it began (arrival of the head / a retrieval taking the reserved head / cancellation of the granted retrieval)."""
+        INF = 10 ** 9
+        travel = self.cap * self.sdelay
+        since = getattr(self, "_stall_since", None); cause = getattr(self, "_stall_cause", None)
+        strictly = since is not None and since < self.now          # the stall began at an earlier instant
+        for iid in ready_ids:
+            e = next((x for x in self.inside if x["id"] == iid and x["ready_at"] >= INF), None)
+            if e is None:
+                self.v("C12", f"item {iid} offered at t={self.now} but it is not a moving item of this conveyor", "order"); continue
+            older = [x["id"] for x in self.inside if x["ready_at"] >= INF and x["seq"] < e["seq"]]
+            if older:
+                self.v("C12", f"item {iid} reached the exit before items {older}, which entered earlier", "order")
+            if self.now < e["ptime"] + travel:
+                self.v("C12", f"item {iid} entered at t={e['ptime']} and was offered at t={self.now}, before the belt travel time {travel}", "travel-short")
+            if self.now > e["ptime"] + travel and not getattr(self, "_ever_stalled", False):
+                self.v("C12", f"item {iid} entered at t={e['ptime']} and was offered only at t={self.now} although nothing ever waited at the exit (travel time {travel})", "travel-long")
+            if strictly and not self.acc:
+                self.v("C13", f"non-accumulating conveyor: item {iid} advanced to the exit at t={self.now} while the head item had been waiting there "
+                              f"unreserved since t={since} (stall began by {cause})", "moves-while-stalled" if cause != "cancel" else "moves-after-cancel")
+            e["ready_at"] = self.now; e["sure"] = True
+        for tid, tt in trig:
+            t = self.toks.get(tid)
+            if t is not None and t.side == "put" and strictly and not self.acc:
+                self.v("C13", f"non-accumulating conveyor granted space reservation {tid} at t={tt} while the head item had been waiting at the exit "
+                              f"unreserved since t={since} (stall began by {cause})", "admits-while-stalled" if cause != "cancel" else "admits-after-cancel")
+        if op[0] == "put" and head == "ok":
+            if self.last_entry is not None and self.now < self.last_entry + self.sdelay:
+                self.v("C12", f"two items entered {self.now - self.last_entry} apart (t={self.last_entry} and t={self.now}), one item length of belt travel takes {self.sdelay}", "spacing")
+            self.last_entry = self.now
+        nready = sum(1 for e in self.inside if e["ready_at"] < INF)
+        stalled = nready > 0 and len(self.granted("get")) == 0
+        if stalled and since is None:
+            self._stall_since = self.now
+            self._stall_cause = "cancel" if op[0] == "cg" else ("get" if op[0] == "get" else "arrival")
+            self._ever_stalled = True
+        elif not stalled:
+            self._stall_since = None; self._stall_cause = None
 
     # ---- fleet (C14): batches, round trip, bounded wait
     def fleet_line(self, op, ready_ids):
@@ -422,6 +465,11 @@ class StoreJudge:
     # ---- edge queries (C11)
     def on_probe(self, op, head):
         w = head.split()
+        if op[1] == "stuck":
+            if len(w) > 1 and w[1].isdigit() and int(w[1]) > 0:
+                self.v("C12", f"{w[1]} item(s) on the belt have no travel process any more: they will never reach the exit", "stuck")
+                self.v("C03", f"{w[1]} item(s) are stranded on the conveyor for ever", "stuck")
+            return
         if op[1] in ("pat", "mode"): return
         if len(w) < 2 or w[1] in ("skip",): return
         if w[1] == "err":
